@@ -239,3 +239,45 @@ Definition env_of_tables (topics : call (list Z)) (tb : list trow) (failing : li
               else Good (fun t p => match find_row tb t p with
                                     | Some r => (pr_err r, pr_offs r)
                                     | None => (3, []) end)).
+
+(* ---- the storage side of a cycle (added 2026-10-02; nothing above changed) -------------------
+   What the module hands to App.StorageChannel and what the storage module gets of it.
+     * SetDeleteTopic (line 197) is a plain channel send: it blocks until storage takes the request.  Never lost; the
+       cycle waits as long as storage is busy.
+     * SetBrokerOffset (line 285) goes through helpers.TimeoutSendStorageRequest(ch, request, 1): if storage does not
+       take the request within 1 s the request is dropped, the result of the call is ignored and the loop goes on.
+   `co_updates` / `co_deletes` are therefore the requests OFFERED; a `storage_beh` says, per offered broker-offset
+   update, whether storage takes it within the timeout (`delivered`).  The module's own state never depends on it. *)
+Inductive sreq := SDeleteTopic (t : Z) | SBrokerOffset (u : update).
+
+Definition storage_beh := update -> bool.      (* true: storage takes this request within the 1 s timeout *)
+
+Record offer := mkOffer { of_update : update; delivered : bool }.
+
+Definition offers (sv : storage_beh) (o : cycle_out) : list offer :=
+  map (fun u => mkOffer u (sv u)) (co_updates o).
+
+(* the requests the storage module receives from one cycle *)
+Definition received (sv : storage_beh) (o : cycle_out) : list sreq :=
+  map SDeleteTopic (co_deletes o)
+  ++ map (fun f => SBrokerOffset (of_update f)) (filter delivered (offers sv o)).
+
+Definition received_updates (sv : storage_beh) (o : cycle_out) : list update :=
+  flat_map (fun r => match r with SBrokerOffset u => [u] | SDeleteTopic _ => [] end) (received sv o).
+Definition received_deletes (sv : storage_beh) (o : cycle_out) : list Z :=
+  flat_map (fun r => match r with SDeleteTopic t => [t] | SBrokerOffset _ => [] end) (received sv o).
+
+(* storage always in time *)
+Definition prompt : storage_beh := fun _ => true.
+
+(* consecutive cycles with a storage behaviour per cycle: what the driver prints for the storage-scripted cases *)
+Fixpoint run_s (st : state) (l : list (bool * env * storage_beh)) : list (bool * outcome (cycle_out * list sreq)) :=
+  match l with
+  | [] => []
+  | (tk, e, sv) :: r =>
+      let st1 := tick tk st in
+      match cycle st1 e with
+      | Crash => [(fetchMetadata st1, Crash)]
+      | Done o => (fetchMetadata st1, Done (o, received sv o)) :: run_s (co_state o) r
+      end
+  end.
